@@ -1,6 +1,6 @@
 """Adapters for deb822.py."""
 import re
-from harness.common import call
+from harness.common import call, Abandon
 from debian_inspector import deb822
 
 
@@ -8,8 +8,12 @@ def groups_t(gs):
     return [[[f.name, [[l.number, l.value] for l in f.lines]] for f in g] for g in gs]
 
 
+_AB = Abandon()
+
+
 def impl(fname, args):
     if fname == 'groups':
+        _AB.before(deb822.get_paragraphs_as_field_groups, args[0])
         return call(lambda t: groups_t(deb822.get_paragraphs_as_field_groups(t)), *args)
     if fname == 'is_decl':
         return call(lambda s: bool(deb822.is_field_declaration(s)), *args)
